@@ -74,6 +74,13 @@ class C01(SeqProp):
         v = []
 
         unit_ramp = has_unit_ramp(op)
+        # the SLM mask's detuning pulse is sized from the amplitudes already scheduled on the
+        # global channels: a NaN sample scheduled earlier (same input class) propagates into it
+        if exc is None and unit_ramp and op["op"] in ("add", "add_dmm", "add_eom"):
+            st["unit_ramp_scheduled"] = True
+        via_slm = st.get("unit_ramp_scheduled", False) and (
+            op["op"] == "config_slm" or any(o["op"] == "config_slm" for o in case["ops"][:i]))
+        unit_ramp = unit_ramp or via_slm
 
         def bad(sig, what):
             # RampWaveform(1, a, b) is a NaN sample: every limit comparison on it is
@@ -98,7 +105,7 @@ class C01(SeqProp):
                 a, d = arr(p.amplitude), arr(p.detuning)
                 if not (np.all(np.isfinite(a)) and np.all(np.isfinite(d))):
                     sig = "non-finite-samples"
-                    if has_unit_ramp(op):
+                    if unit_ramp:
                         sig += ":ramp-of-duration-1"
                     bad(sig, f"channel {name}: scheduled pulse has non-finite samples")
                     continue
